@@ -28,10 +28,12 @@ func VH_C07_pack() {
 	var firstVersion uint64
 	var edit, create uint64
 	var editSet, createSet bool
+	var nVersion, nOps, nEdit, nCreate, nExtra, nJunk int
 	for k := 0; k < ne; k++ {
 		switch rt.Choose(8) {
 		case 0:
 			v := rt.NondetUint64()
+			nVersion++
 			if !hasVersion {
 				hasVersion = true
 				firstVersion = v
@@ -39,18 +41,23 @@ func VH_C07_pack() {
 			entries = append(entries, repository.TreeEntry{ObjectType: repository.Blob, Hash: empty, Name: fmt.Sprintf(versionEntryPrefix+"%d", v)})
 		case 1:
 			hasOps = true
+			nOps++
 			entries = append(entries, repository.TreeEntry{ObjectType: repository.Blob, Hash: blob, Name: opsEntryName})
 		case 2:
 			edit = rt.NondetUint64()
 			editSet = true
+			nEdit++
 			entries = append(entries, repository.TreeEntry{ObjectType: repository.Blob, Hash: empty, Name: fmt.Sprintf(editClockEntryPrefix+"%d", edit)})
 		case 3:
 			create = rt.NondetUint64()
 			createSet = true
+			nCreate++
 			entries = append(entries, repository.TreeEntry{ObjectType: repository.Blob, Hash: empty, Name: fmt.Sprintf(createClockEntryPrefix+"%d", create)})
 		case 4:
+			nExtra++
 			entries = append(entries, repository.TreeEntry{ObjectType: repository.Tree, Hash: empty, Name: extraEntryName})
 		case 5:
+			nJunk++
 			entries = append(entries, repository.TreeEntry{ObjectType: repository.Blob, Hash: empty, Name: "junk"})
 		case 6:
 			// non-numeric / overlong numerals
@@ -71,6 +78,7 @@ func VH_C07_pack() {
 		case 7:
 			entries = append(entries, repository.TreeEntry{ObjectType: repository.Blob, Hash: repository.Hash("0000000000000000000000000000000000000bad"), Name: opsEntryName})
 			hasOps = true
+			nOps++
 			rt.Cover("dangling-ops")
 		}
 	}
@@ -90,11 +98,19 @@ func VH_C07_pack() {
 	rt.Cover("pack-accepted")
 	rt.Assert(hasVersion && firstVersion == uint64(vhDef.FormatVersion), "accepted-pack-has-right-version")
 	rt.Assert(hasOps, "accepted-pack-has-ops-entry")
-	if editSet {
-		_ = edit
+	// "missing, duplicated or extra tree entries" are hostile: an accepted tree holds each
+	// known entry at most once and nothing unknown (a missing edit clock is refused by the
+	// caller's Validate, C03)
+	rt.Assert(nVersion == 1 && nOps == 1 && nEdit <= 1 && nCreate <= 1 && nExtra <= 1, "accepted-pack-has-no-duplicated-entry")
+	rt.Assert(nJunk == 0, "accepted-pack-has-no-unknown-entry")
+	if opp != nil {
+		if editSet && nEdit == 1 {
+			rt.Assert(uint64(opp.EditTime) == edit, "accepted-pack-carries-the-clocks-of-its-entries")
+		}
+		if createSet && nCreate == 1 {
+			rt.Assert(uint64(opp.CreateTime) == create, "accepted-pack-carries-the-clocks-of-its-entries")
+		}
 	}
-	_ = createSet
-	_ = create
 	rt.Assert(opp != nil && opp.Author != nil, "accepted-pack-has-author")
 }
 
